@@ -3,7 +3,12 @@ package gossipsim
 import (
 	"bytes"
 	"fmt"
+	"os"
 )
+
+// strictNodeOrder turns on an optional oracle that is NOT part of property
+// C20 as stated: BOLT 7 wants node_id_1 < node_id_2 in a channel announcement.
+var strictNodeOrder = os.Getenv("GOSSIPSIM_STRICT_NODE_ORDER") != ""
 
 // msgInfo is what the simulator remembers about one distinct wire message it
 // has delivered.
@@ -19,12 +24,29 @@ type msgInfo struct {
 	fresh bool
 }
 
+// fail raises a violation. If the graph holds (or held) a channel whose two
+// node ids are equal, the violation is reported under the code
+// "selfloop-channel" with the specific class as its signature: such a channel
+// is itself the anomaly (see findings/), and whatever follows from it is
+// attributed to it, so that one known-finding entry covers all of it.
+func (s *Sim) fail(code, format string, args ...interface{}) {
+	if s.selfloop {
+		s.r.FailSig("selfloop-channel", code, "["+code+"] "+format, args...)
+	}
+	s.r.Fail(code, format, args...)
+}
+
 // check compares the graph with its previous projection and judges every
 // difference and everything the node sent out since the last check.
 func (s *Sim) check(what string) {
 	r := s.r
 	old := s.proj
 	cur := s.w.readProjection()
+	for _, c := range cur.chans {
+		if c.node[0] == c.node[1] {
+			s.selfloop = true
+		}
+	}
 
 	// ---- channels ----
 	for _, scid := range cur.scids() {
@@ -36,7 +58,7 @@ func (s *Sim) check(what string) {
 			s.justifyChanAdd(c, what)
 			o = &pChan{} // policies compared against "none"
 		} else if !bytes.Equal(o.wire, c.wire) || o.err != c.err || o.capacity != c.capacity || o.outpoint != c.outpoint {
-			r.Fail("chan-modified", "%s: stored announcement/capacity/outpoint of channel %s changed (%x.. -> %x.., cap %d -> %d, %v -> %v); a channel announcement is immutable",
+			s.fail("chan-modified", "%s: stored announcement/capacity/outpoint of channel %s changed (%x.. -> %x.., cap %d -> %d, %v -> %v); a channel announcement is immutable",
 				what, scidStr(scid), head(o.wire), head(c.wire), o.capacity, c.capacity, o.outpoint, c.outpoint)
 		}
 		for d := 0; d < 2; d++ {
@@ -44,7 +66,7 @@ func (s *Sim) check(what string) {
 				continue
 			}
 			if c.pol[d] == nil {
-				r.Fail("policy-removed", "%s: policy of channel %s direction %d disappeared while the channel stayed", what, scidStr(scid), d)
+				s.fail("policy-removed", "%s: policy of channel %s direction %d disappeared while the channel stayed", what, scidStr(scid), d)
 			}
 			s.justifyPolicy(c, d, o.pol[d], c.pol[d], what)
 		}
@@ -55,7 +77,7 @@ func (s *Sim) check(what string) {
 		}
 		o := old.chans[scid]
 		if !s.w.chain.IsSpent(o.outpoint) {
-			r.Fail("chan-removed", "%s: channel %s left the graph although its funding output %v is unspent and no pruning was due",
+			s.fail("chan-removed", "%s: channel %s left the graph although its funding output %v is unspent and no pruning was due",
 				what, scidStr(scid), o.outpoint)
 		}
 		logf(r, "  graph: channel %s removed (funding output spent)", scidStr(scid))
@@ -68,12 +90,12 @@ func (s *Sim) check(what string) {
 		o, had := old.nodes[key]
 		if key == s.w.self.pub {
 			if !had || !bytes.Equal(o.wire, n.wire) {
-				r.Fail("self-node-changed", "%s: the node's own graph entry was changed by gossip", what)
+				s.fail("self-node-changed", "%s: the node's own graph entry was changed by gossip", what)
 			}
 			continue
 		}
 		if n.err != "" {
-			r.Fail("node-unjustified", "%s: node %s stored in a form that cannot be announced: %s", what, short(key[:]), n.err)
+			s.fail("node-unjustified", "%s: node %s stored in a form that cannot be announced: %s", what, short(key[:]), n.err)
 		}
 		switch {
 		case had && bytes.Equal(o.wire, n.wire) && o.ts == n.ts:
@@ -81,7 +103,7 @@ func (s *Sim) check(what string) {
 		case n.wire == nil && !had:
 			// shell node: created together with a channel
 			if !cur.hasEndpoint(key) {
-				r.Fail("node-unjustified", "%s: node %s appeared in the graph without announcement and without any channel", what, short(key[:]))
+				s.fail("node-unjustified", "%s: node %s appeared in the graph without announcement and without any channel", what, short(key[:]))
 			}
 			r.Count("graph_shell_node_added")
 		case n.wire == nil && had:
@@ -92,11 +114,11 @@ func (s *Sim) check(what string) {
 			for _, oscid := range old.scids() {
 				oc := old.chans[oscid]
 				if (oc.node[0] == key || oc.node[1] == key) && cur.chans[oscid] != nil {
-					r.Fail("node-downgraded", "%s: node %s lost its announcement although its channel %s stayed in the graph", what, short(key[:]), scidStr(oscid))
+					s.fail("node-downgraded", "%s: node %s lost its announcement although its channel %s stayed in the graph", what, short(key[:]), scidStr(oscid))
 				}
 			}
 			if !cur.hasEndpoint(key) {
-				r.Fail("node-unjustified", "%s: node %s is in the graph without any channel", what, short(key[:]))
+				s.fail("node-unjustified", "%s: node %s is in the graph without any channel", what, short(key[:]))
 			}
 			r.Count("probe_node_pruned_and_recreated")
 		default:
@@ -112,10 +134,10 @@ func (s *Sim) check(what string) {
 			continue
 		}
 		if key == s.w.self.pub {
-			r.Fail("self-node-changed", "%s: the node's own graph entry vanished", what)
+			s.fail("self-node-changed", "%s: the node's own graph entry vanished", what)
 		}
 		if cur.hasEndpoint(key) {
-			r.Fail("node-removed", "%s: node %s left the graph although it still has a channel", what, short(key[:]))
+			s.fail("node-removed", "%s: node %s left the graph although it still has a channel", what, short(key[:]))
 		}
 		r.Count("graph_node_removed")
 	}
@@ -125,7 +147,7 @@ func (s *Sim) check(what string) {
 		s.justifyRelay(e, old, cur, what)
 	}
 
-	s.w.checkCache(cur, what)
+	s.w.checkCache(cur, what, s.fail)
 
 	for _, scid := range cur.scids() {
 		c := cur.chans[scid]
@@ -134,7 +156,7 @@ func (s *Sim) check(what string) {
 		s.everEndpoint[c.node[1]] = true
 	}
 	s.proj = cur
-	r.State(cur.summary())
+	r.State(cur.abstract())
 }
 
 func head(b []byte) []byte {
@@ -156,37 +178,43 @@ func (s *Sim) justifyChanAdd(c *pChan, what string) {
 	r := s.r
 	id := scidStr(c.scid)
 	if c.err != "" {
-		r.Fail("chan-unjustified", "%s: channel %s entered the graph in a form that cannot be announced: %s", what, id, c.err)
+		s.fail("chan-unjustified", "%s: channel %s entered the graph in a form that cannot be announced: %s", what, id, c.err)
 	}
 	mi := s.findDelivered(c.wire)
 	if mi == nil || mi.kind != typeChanAnn {
-		r.Fail("chan-unjustified", "%s: channel %s entered the graph, but no delivered channel_announcement has the bytes the graph now holds (%x..)", what, id, head(c.wire))
+		s.fail("chan-unjustified", "%s: channel %s entered the graph, but no delivered channel_announcement has the bytes the graph now holds (%x..)", what, id, head(c.wire))
 	}
 	m, ok := parseCA(mi.wire)
 	if !ok || m.scid != c.scid {
-		r.Fail("chan-unjustified", "%s: channel %s: stored announcement does not parse as one for that id", what, id)
+		s.fail("chan-unjustified", "%s: channel %s: stored announcement does not parse as one for that id", what, id)
 	}
 	if !m.sigsOK() {
-		r.Fail("chan-bad-signature", "%s: channel %s entered the graph from announcement [%s] whose four signatures do not all verify over its digest under the stated keys", what, id, mi.label)
+		s.fail("chan-bad-signature", "%s: channel %s entered the graph from announcement [%s] whose four signatures do not all verify over its digest under the stated keys", what, id, mi.label)
 	}
 	if !bytes.Equal(m.chainHash, s.u.chainHash[:]) {
-		r.Fail("chan-wrong-chain", "%s: channel %s entered the graph from announcement [%s] for another chain", what, id, mi.label)
+		s.fail("chan-wrong-chain", "%s: channel %s entered the graph from announcement [%s] for another chain", what, id, mi.label)
 	}
 	t := s.w.chain.Lookup(m.height(), m.txIndex(), m.outIndex())
 	if !t.Exists {
-		r.Fail("chan-no-funding", "%s: channel %s entered the graph from [%s], but the chain has no output at that position", what, id, mi.label)
+		s.fail("chan-no-funding", "%s: channel %s entered the graph from [%s], but the chain has no output at that position", what, id, mi.label)
 	}
 	if t.Spent {
-		r.Fail("chan-funding-spent", "%s: channel %s entered the graph from [%s], but its funding output %v is already spent", what, id, mi.label, t.OutPoint)
+		s.fail("chan-funding-spent", "%s: channel %s entered the graph from [%s], but its funding output %v is already spent", what, id, mi.label, t.OutPoint)
 	}
 	if !bytes.Equal(t.PkScript, p2wsh2of2(m.btc1, m.btc2)) {
-		r.Fail("chan-funding-mismatch", "%s: channel %s entered the graph from [%s], but output %v does not pay to the 2-of-2 of the announced bitcoin keys", what, id, mi.label, t.OutPoint)
+		s.fail("chan-funding-mismatch", "%s: channel %s entered the graph from [%s], but output %v does not pay to the 2-of-2 of the announced bitcoin keys", what, id, mi.label, t.OutPoint)
 	}
 	if c.capacity != t.Value || c.outpoint != t.OutPoint {
-		r.Fail("chan-wrong-capacity", "%s: channel %s stored with capacity %d / outpoint %v, the chain says %d / %v", what, id, c.capacity, c.outpoint, t.Value, t.OutPoint)
+		s.fail("chan-wrong-capacity", "%s: channel %s stored with capacity %d / outpoint %v, the chain says %d / %v", what, id, c.capacity, c.outpoint, t.Value, t.OutPoint)
+	}
+	if strictNodeOrder && bytes.Compare(m.node1, m.node2) >= 0 {
+		s.fail("chan-node-order", "%s: channel %s entered the graph from [%s] with node_id_1 %s not below node_id_2 %s (BOLT 7 requires ascending order; checked only with GOSSIPSIM_STRICT_NODE_ORDER=1)", what, id, mi.label, short(m.node1), short(m.node2))
 	}
 	if !bytes.Equal(c.node[0][:], m.node1) || !bytes.Equal(c.node[1][:], m.node2) {
-		r.Fail("chan-unjustified", "%s: channel %s stored under node keys other than the announced ones", what, id)
+		s.fail("chan-unjustified", "%s: channel %s stored under node keys other than the announced ones", what, id)
+	}
+	if !s.curWires[string(mi.wire)] {
+		r.Count("probe_buffered_announcement_applied_later")
 	}
 	logf(r, "  graph: + channel %s from [%s] cap=%d", id, mi.label, c.capacity)
 	r.Count("graph_chan_added")
@@ -200,30 +228,33 @@ func (s *Sim) justifyPolicy(c *pChan, d int, old, cur *pPolicy, what string) {
 	r := s.r
 	id := fmt.Sprintf("%s/%d", scidStr(c.scid), d)
 	if cur.err != "" {
-		r.Fail("policy-unjustified", "%s: policy %s stored in a form that cannot be announced: %s", what, id, cur.err)
+		s.fail("policy-unjustified", "%s: policy %s stored in a form that cannot be announced: %s", what, id, cur.err)
 	}
 	mi := s.findDelivered(cur.wire)
 	if mi == nil || mi.kind != typeChanUpdate {
-		r.Fail("policy-unjustified", "%s: policy %s changed (ts %d), but no delivered channel_update has the bytes the graph now holds (%x..)", what, id, cur.ts, head(cur.wire))
+		s.fail("policy-unjustified", "%s: policy %s changed (ts %d), but no delivered channel_update has the bytes the graph now holds (%x..)", what, id, cur.ts, head(cur.wire))
 	}
 	m, ok := parseCU(mi.wire)
 	if !ok || m.scid != c.scid || m.dir() != d {
-		r.Fail("policy-unjustified", "%s: policy %s now holds update [%s], which is not for that channel and direction", what, id, mi.label)
+		s.fail("policy-unjustified", "%s: policy %s now holds update [%s], which is not for that channel and direction", what, id, mi.label)
 	}
 	if !m.signedBy(c.node[d][:]) {
-		r.Fail("policy-bad-signature", "%s: policy %s taken from update [%s] that is not signed by node %s owning that direction", what, id, mi.label, short(c.node[d][:]))
+		s.fail("policy-bad-signature", "%s: policy %s taken from update [%s] that is not signed by node %s owning that direction", what, id, mi.label, short(c.node[d][:]))
 	}
 	if !bytes.Equal(m.chainHash, s.u.chainHash[:]) {
-		r.Fail("policy-wrong-chain", "%s: policy %s taken from update [%s] for another chain", what, id, mi.label)
+		s.fail("policy-wrong-chain", "%s: policy %s taken from update [%s] for another chain", what, id, mi.label)
 	}
 	if !m.consistent(c.capacity) {
-		r.Fail("policy-inconsistent", "%s: policy %s taken from update [%s] with inconsistent fields (flags=%#x min=%d max=%d capacity=%d sat)", what, id, mi.label, m.msgFlags, m.minHtlc, m.maxHtlc, c.capacity)
+		s.fail("policy-inconsistent", "%s: policy %s taken from update [%s] with inconsistent fields (flags=%#x min=%d max=%d capacity=%d sat)", what, id, mi.label, m.msgFlags, m.minHtlc, m.maxHtlc, c.capacity)
 	}
 	if old != nil && !(m.ts > old.ts) {
-		r.Fail("policy-not-newer", "%s: policy %s replaced by update [%s] with timestamp %d, stored one had %d", what, id, mi.label, m.ts, old.ts)
+		s.fail("policy-not-newer", "%s: policy %s replaced by update [%s] with timestamp %d, stored one had %d", what, id, mi.label, m.ts, old.ts)
 	}
 	if cur.ts != m.ts {
-		r.Fail("policy-unjustified", "%s: policy %s timestamp %d differs from the update's %d", what, id, cur.ts, m.ts)
+		s.fail("policy-unjustified", "%s: policy %s timestamp %d differs from the update's %d", what, id, cur.ts, m.ts)
+	}
+	if !s.curWires[string(mi.wire)] {
+		r.Count("probe_buffered_update_applied_later")
 	}
 	logf(r, "  graph: policy %s <- [%s] ts=%d", id, mi.label, m.ts)
 	r.Count("graph_policy_applied")
@@ -240,20 +271,20 @@ func (s *Sim) justifyNode(n, old *pNode, before, after *projection, what string)
 	id := short(n.key[:])
 	mi := s.findDelivered(n.wire)
 	if mi == nil || mi.kind != typeNodeAnn {
-		r.Fail("node-unjustified", "%s: node %s changed, but no delivered node_announcement has the bytes the graph now holds (%x..)", what, id, head(n.wire))
+		s.fail("node-unjustified", "%s: node %s changed, but no delivered node_announcement has the bytes the graph now holds (%x..)", what, id, head(n.wire))
 	}
 	m, ok := parseNA(mi.wire)
 	if !ok || !bytes.Equal(m.nodeID, n.key[:]) {
-		r.Fail("node-unjustified", "%s: node %s now holds announcement [%s] of another node", what, id, mi.label)
+		s.fail("node-unjustified", "%s: node %s now holds announcement [%s] of another node", what, id, mi.label)
 	}
 	if !m.sigOK() {
-		r.Fail("node-bad-signature", "%s: node %s taken from announcement [%s] not signed by that node", what, id, mi.label)
+		s.fail("node-bad-signature", "%s: node %s taken from announcement [%s] not signed by that node", what, id, mi.label)
 	}
 	if old != nil && old.wire != nil && !(m.ts > old.ts) {
-		r.Fail("node-not-newer", "%s: node %s replaced by announcement [%s] with timestamp %d, stored one had %d", what, id, mi.label, m.ts, old.ts)
+		s.fail("node-not-newer", "%s: node %s replaced by announcement [%s] with timestamp %d, stored one had %d", what, id, mi.label, m.ts, old.ts)
 	}
 	if !before.hasEndpoint(n.key) && !after.hasEndpoint(n.key) {
-		r.Fail("node-without-channel", "%s: node %s accepted from [%s] although it has no known channel", what, id, mi.label)
+		s.fail("node-without-channel", "%s: node %s accepted from [%s] although it has no known channel", what, id, mi.label)
 	}
 	logf(r, "  graph: node %s <- [%s] ts=%d", id, mi.label, m.ts)
 	r.Count("graph_node_applied")
@@ -269,7 +300,7 @@ func (s *Sim) justifyRelay(e emitted, before, after *projection, what string) {
 			r.Count("relay_self_node")
 			return
 		}
-		r.Fail("relay-unknown", "%s: the node sent out (%s) a gossip message nobody delivered to it: %x..", what, e.via, head(e.wire))
+		s.fail("relay-unknown", "%s: the node sent out (%s) a gossip message nobody delivered to it: %x..", what, e.via, head(e.wire))
 	}
 	r.Count("relayed")
 	switch mi.kind {
@@ -280,7 +311,7 @@ func (s *Sim) justifyRelay(e emitted, before, after *projection, what string) {
 			c = after.chans[m.scid]
 		}
 		if c == nil || !bytes.Equal(c.wire, mi.wire) {
-			r.Fail("relay-unaccepted", "%s: channel_announcement [%s] relayed (%s) although it never entered the graph", what, mi.label, e.via)
+			s.fail("relay-unaccepted", "%s: channel_announcement [%s] relayed (%s) although it never entered the graph", what, mi.label, e.via)
 		}
 		r.Count("relayed_chan_ann")
 	case typeChanUpdate:
@@ -290,16 +321,16 @@ func (s *Sim) justifyRelay(e emitted, before, after *projection, what string) {
 			c = after.chans[m.scid]
 		}
 		if c == nil {
-			r.Fail("relay-unaccepted", "%s: channel_update [%s] relayed (%s) for a channel that never was in the graph", what, mi.label, e.via)
+			s.fail("relay-unaccepted", "%s: channel_update [%s] relayed (%s) for a channel that never was in the graph", what, mi.label, e.via)
 		}
 		if !m.signedBy(c.node[m.dir()][:]) || !bytes.Equal(m.chainHash, s.u.chainHash[:]) {
-			r.Fail("relay-inauthentic", "%s: channel_update [%s] relayed (%s) although it is not signed by the node owning that direction", what, mi.label, e.via)
+			s.fail("relay-inauthentic", "%s: channel_update [%s] relayed (%s) although it is not signed by the node owning that direction", what, mi.label, e.via)
 		}
 		if !m.consistent(c.capacity) {
-			r.Fail("relay-inauthentic", "%s: channel_update [%s] with inconsistent fields relayed (%s)", what, mi.label, e.via)
+			s.fail("relay-inauthentic", "%s: channel_update [%s] with inconsistent fields relayed (%s)", what, mi.label, e.via)
 		}
 		if !mi.fresh {
-			r.Fail("relay-stale", "%s: channel_update [%s] (ts %d) relayed (%s) although at every delivery the graph already held an equal or newer one", what, mi.label, m.ts, e.via)
+			s.fail("relay-stale", "%s: channel_update [%s] (ts %d) relayed (%s) although at every delivery the graph already held an equal or newer one", what, mi.label, m.ts, e.via)
 		}
 		r.Count("relayed_chan_update")
 	case typeNodeAnn:
@@ -307,13 +338,13 @@ func (s *Sim) justifyRelay(e emitted, before, after *projection, what string) {
 		var key [33]byte
 		copy(key[:], m.nodeID)
 		if !m.sigOK() {
-			r.Fail("relay-inauthentic", "%s: node_announcement [%s] relayed (%s) although not signed by that node", what, mi.label, e.via)
+			s.fail("relay-inauthentic", "%s: node_announcement [%s] relayed (%s) although not signed by that node", what, mi.label, e.via)
 		}
 		if !s.everEndpoint[key] && !after.hasEndpoint(key) {
-			r.Fail("relay-unaccepted", "%s: node_announcement [%s] relayed (%s) although the node never had a known channel", what, mi.label, e.via)
+			s.fail("relay-unaccepted", "%s: node_announcement [%s] relayed (%s) although the node never had a known channel", what, mi.label, e.via)
 		}
 		if !mi.fresh {
-			r.Fail("relay-stale", "%s: node_announcement [%s] (ts %d) relayed (%s) although at every delivery the graph already held an equal or newer one", what, mi.label, m.ts, e.via)
+			s.fail("relay-stale", "%s: node_announcement [%s] (ts %d) relayed (%s) although at every delivery the graph already held an equal or newer one", what, mi.label, m.ts, e.via)
 		}
 		r.Count("relayed_node_ann")
 	}
